@@ -124,7 +124,10 @@ type c16Session struct {
 	// RestSplit >= 0 (mode rest): read that many bytes from the reader Rest
 	// returned, then call Rest again and drain that one.
 	RestSplit int `json:"rest_called_again_after_bytes"`
-	reader    *simReader
+	// NextAfterRest (mode rest): call Next once right after Rest, before the
+	// remainder is read.
+	NextAfterRest bool `json:"next_called_right_after_rest"`
+	reader        *simReader
 	// observations (written by the executing thread, read after the join)
 	Tokens    []string `json:"tokens"`
 	Completes []bool   `json:"complete_after_each"`
@@ -237,6 +240,11 @@ func execSession(sc *shell.Scanner, prev *simReader, s *c16Session) (*shell.Scan
 		}
 		r := sc.Rest()
 		s.restTaken = true
+		if s.NextAfterRest {
+			// Before the remainder is read: the scanner is finished, it must not
+			// take bytes that now belong to the caller.
+			s.Extra = append(s.Extra, sc.Next())
+		}
 		var head []byte
 		if s.RestSplit >= 0 {
 			// Take some bytes, then ask for the remainder again.
@@ -485,6 +493,7 @@ func drawSession(ch chooser.Chooser, withErrors bool, st *Stats) *c16Session {
 	s.SameReader = ch.Draw(2, "samereader") == 1
 	s.Plain = ch.Draw(5, "plain") == 4
 	s.RestSplit = -1
+	s.NextAfterRest = s.Mode == smRest && ch.Draw(2, "nextafterrest") == 1
 	if s.Mode == smRest && ch.Draw(3, "resttwice") == 2 {
 		s.RestSplit = ch.Draw(len(s.Input)+1, "restsplit")
 	}
